@@ -130,6 +130,9 @@ def stepEvent (m : M) (op : String) (args : List String) : M × String :=
     (m, match s with
       | some s => if (List.range (nat n)).all (fun g => s.idOf g == some g) then "distinct constant" else "clash"
       | none => "clash")
+  | "frames", [] => (m, "ok")       -- frame pools are not in the model (C06): Go-side oracle only
+  | "regcheck", [] => (m, "ok")    -- scenario without event log: snapshot of the real registry, Go-side oracle only
+  | "race", [] => (m, "none")      -- race detector report of the scenario: Go-side oracle only
   | _, _ => (m, "bad-op")
 
 def stepC33 (m : M) (line : String) : M × String :=
